@@ -28,7 +28,13 @@
 
    "T" the check succeeds; "F" it answers false; "X" it cannot be answered because a group membership
    had to be looked up while the checking frame has no ReadStates permission (the protocol faults the
-   execution).  The PROPERTY only distinguishes success ("T") from everything else: Granted. *)
+   execution).  The PROPERTY only distinguishes success ("T") from everything else, and it is one-directional
+   where call flags interfere:
+        MayGrant   the check is allowed to succeed          (observed success => MayGrant : always judged)
+        MustGrant  the check has to succeed                 (observed refusal => ~MustGrant)
+   MustGrant is MayGrant except in a frame WITHOUT ReadStates for a signer whose scope has the CustomGroups
+   bit and that is not already admitted by the clauses in front of it: there an implementation may refuse
+   (neo-go looks the current contract's groups up - and fails - even when no group is listed). *)
 EXTENDS Integers, Sequences
 
 InSeq(e, s) == \E i \in DOMAIN s : s[i] = e
@@ -115,7 +121,29 @@ CheckX(signers, acct, x) ==
 
 Check(signers, acct, chain) == CheckX(signers, acct, Ctx(chain))
 
-Granted(signers, acct, chain) == Check(signers, acct, chain) = "T"
+(* the clauses evaluated before any group membership is needed *)
+PreGroupRules(s) ==
+    IF InSeq("Global", s.scopes) THEN << Rule("Allow", CBool(TRUE)) >>
+    ELSE (IF InSeq("CalledByEntry", s.scopes) THEN << Rule("Allow", CEntry) >> ELSE <<>>)
+      \o (IF InSeq("CustomContracts", s.scopes)
+          THEN [i \in DOMAIN s.contracts |-> Rule("Allow", CHash(s.contracts[i]))] ELSE <<>>)
 
+RefusalTolerated(signers, acct, x) ==
+    LET i == FirstSigner(signers, acct) IN
+    /\ ~x.rs
+    /\ ~(x.caller # NoCaller /\ acct = x.caller)
+    /\ i # 0
+    /\ InSeq("CustomGroups", signers[i].scopes)
+    /\ Decide(PreGroupRules(signers[i]), 1, x) # "T"
+
+MayGrantX(signers, acct, x)  == CheckX(signers, acct, x) = "T"
+MustGrantX(signers, acct, x) == CheckX(signers, acct, x) = "T" /\ ~RefusalTolerated(signers, acct, x)
+MayGrant(signers, acct, chain)  == MayGrantX(signers, acct, Ctx(chain))
+MustGrant(signers, acct, chain) == MustGrantX(signers, acct, Ctx(chain))
+
+\* 0 must refuse (false), 1 must grant, 2 must refuse (fault specified), 3 may grant or refuse
 Code(r) == CASE r = "F" -> 0 [] r = "T" -> 1 [] r = "X" -> 2
+CodeX(signers, acct, x) ==
+    LET r == CheckX(signers, acct, x) IN
+    IF r = "T" /\ RefusalTolerated(signers, acct, x) THEN 3 ELSE Code(r)
 =============================================================================
